@@ -178,6 +178,26 @@ mut('ok-c08-pop-refactor', ['C08'], CL,
 mut('ok-c08-convention-rewrite', ['C08'], CL,
     [("        if msg.body is None or len(msg.body) == 0:\n            return None", "        if not msg.body:\n            return None")], kind='benign')
 
+# ---- C20 ------------------------------------------------------------------
+PR = 'txdbus/protocol.py'
+mut('c20-fds-after-bytes', ['C20'], PR,
+    [("        if hasattr(msg, 'oobFDs') and msg.oobFDs:\n            for fd in msg.oobFDs:\n                self.transport.sendFileDescriptor(fd)\n        self.transport.write(msg.rawMessage)",
+      "        self.transport.write(msg.rawMessage)\n        if hasattr(msg, 'oobFDs') and msg.oobFDs:\n            for fd in msg.oobFDs:\n                self.transport.sendFileDescriptor(fd)")], ['C20.D1'])
+mut('c20-fds-reversed', ['C20'], PR,
+    [("            for fd in msg.oobFDs:", "            for fd in reversed(msg.oobFDs):")], ['C20.D1'])
+mut('c20-consume-from-back', ['C20'], PR,
+    [("self._receivedFDs = self._receivedFDs[m.unix_fds:]", "self._receivedFDs = self._receivedFDs[:-m.unix_fds]")], ['C20.D3'])
+mut('c20-consume-all', ['C20'], PR,
+    [("self._receivedFDs = self._receivedFDs[m.unix_fds:]", "self._receivedFDs = []")], ['C20.D3'])
+mut('c20-index-after-append', ['C20'], M,
+    [("    index = len(oobFDs)\n    oobFDs.append(var)\n", "    oobFDs.append(var)\n    index = len(oobFDs)\n")], ['C20.D2'])
+mut('c20-header-count-const', ['C20'], 'txdbus/message.py',
+    [("                self.unix_fds = len(oobFDs)", "                self.unix_fds = len(self.body)")], ['C20.D2'])
+mut('c20-shared-list', ['C20'], CL,
+    [("                oobFDs=[],\n", "                oobFDs=self._fdScratch,\n")], ['C20.D4'])
+mut('c20-parse-copy-queue', ['C20'], PR,
+    [("m = message.parseMessage(rawMsg, self._receivedFDs)", "m = message.parseMessage(rawMsg, [])")], ['C20.D3'])
+
 # benign variants --------------------------------------------------------------
 mut('ok-int16-condexpr', ['C01', 'C02'], M,
     [("return 2, [struct.pack(lendian and '<h' or '>h', var)]",
